@@ -9,6 +9,10 @@
 #include "program.hpp"
 
 using namespace randomx;
+// the JIT's table of per-instruction code offsets is a private detail: accept a growing container as well as a fixed array
+template<class T> static auto recordedOffsets(const T& v, int) -> decltype((int)v.size()) { return (int)v.size(); }
+template<class T, size_t N> static int recordedOffsets(const T (&)[N], int n) { return n <= (int)N ? n : (int)N; }
+
 
 // ---------- (1) arithmetic ------------------------------------------------------------------------------------------
 struct ArCase {
@@ -100,7 +104,7 @@ static std::string structure(const pg::ProgCase& c) {
 		alignas(64) Program p2; memcpy((void*)&p2, c.prog.data(), sizeof p2);
 		ProgramConfiguration cfg{}; cfg.readReg0 = 0; cfg.readReg1 = 2; cfg.readReg2 = 4; cfg.readReg3 = 6;
 		jit->generateProgram(p2, cfg);
-		if ((int)jit->instructionOffsets.size() != n) return "JIT compiled " + std::to_string(jit->instructionOffsets.size()) + " instructions, expected " + std::to_string(n);
+		if (recordedOffsets(jit->instructionOffsets, n) != n) return "JIT compiled " + std::to_string(recordedOffsets(jit->instructionOffsets, n)) + " instructions, expected " + std::to_string(n);
 		for (int i = 0; i < n; ++i) {
 			if (targets[i] == -2) continue;
 			int32_t end = (i + 1 < n) ? jit->instructionOffsets[i + 1] : -1;
